@@ -1,8 +1,185 @@
 //! Verification hook (compiled only with `--cfg quinn_rs_quinn_verif`).
+//!
+//! Component: `token_decision` — `IncomingToken::from_header` on a real `ServerConfig` with a
+//! fixed `HandshakeTokenKey`, a mock `TimeSource` and a real `BloomTokenLog` (exact mode).
 #![allow(missing_docs, dead_code, unused_imports, unreachable_pub, clippy::all)]
 use super::{Ops, Outs};
 
+#[cfg(all(feature = "ring", feature = "bloom"))]
+mod imp {
+    use super::{Ops, Outs};
+    use crate::{
+        BloomTokenLog, ConnectionId, Duration, ServerConfig, SystemTime, TimeSource,
+        TransportError, UNIX_EPOCH, ValidationTokenConfig,
+        crypto::{self, HandshakeTokenKey, Keys, Session, UnsupportedVersion},
+        packet::{InitialHeader, PacketNumber},
+        token::{IncomingToken, Token, TokenPayload},
+        transport_parameters::TransportParameters,
+    };
+    use bytes::Bytes;
+    use ring::hkdf;
+    use std::{
+        net::{IpAddr, Ipv4Addr, Ipv6Addr, SocketAddr},
+        sync::{
+            Arc,
+            atomic::{AtomicU64, Ordering},
+        },
+    };
+
+    /// `from_header` never touches the TLS configuration.
+    struct NoCrypto;
+    impl crypto::ServerConfig for NoCrypto {
+        fn initial_keys(&self, _: u32, _: ConnectionId) -> Result<Keys, UnsupportedVersion> {
+            unimplemented!()
+        }
+        fn retry_tag(&self, _: u32, _: ConnectionId, _: &[u8]) -> [u8; 16] {
+            unimplemented!()
+        }
+        fn start_session(self: Arc<Self>, _: u32, _: &TransportParameters) -> Box<dyn Session> {
+            unimplemented!()
+        }
+    }
+
+    struct MockTime(Arc<AtomicU64>);
+    impl TimeSource for MockTime {
+        fn now(&self) -> SystemTime {
+            UNIX_EPOCH + Duration::from_micros(self.0.load(Ordering::SeqCst))
+        }
+    }
+
+    fn key(id: i128) -> hkdf::Prk {
+        let master = [0x40u8 + id as u8; 64];
+        hkdf::Salt::new(hkdf::HKDF_SHA256, &[]).extract(&master)
+    }
+
+    /// abstract address id -> IP; injective (8 = the v4-mapped form of id 0, a different `IpAddr`)
+    fn ip(id: i128) -> IpAddr {
+        match id {
+            0..=3 => IpAddr::V4(Ipv4Addr::new(10, 0, 0, id as u8)),
+            8 => IpAddr::V6(Ipv4Addr::new(10, 0, 0, 0).to_ipv6_mapped()),
+            _ => IpAddr::V6(Ipv6Addr::new(0xfd00, 0, 0, 0, 0, 0, 0, id as u16)),
+        }
+    }
+
+    fn cid(v: &[i128]) -> ConnectionId {
+        let b: Vec<u8> = v.iter().map(|x| *x as u8).collect();
+        ConnectionId::new(&b)
+    }
+
+    fn out_cid(o: &mut Vec<i128>, c: &ConnectionId) {
+        o.push(c.len() as i128);
+        o.extend(c.iter().map(|x| *x as i128));
+    }
+
+    /// token_decision ops (times in integer microseconds since `UNIX_EPOCH`):
+    ///   op 0 must be [0, retry_token_lifetime, validation_token_lifetime]               -> [0]
+    ///   [1, kind (0 Retry / 1 Validation), key_id (0 = the server's key, 1 = another key),
+    ///       addr_id, port, issued, nonce_hi, nonce_lo, cid_len, cid...]
+    ///         `Token::encode` of that payload under that key; the bytes are stored as token
+    ///         number (count of earlier issue ops)                                           -> [0, length]
+    ///   [2, token_no, mutation, arg, from_addr_id, from_port, now, dcid_len, dcid...]
+    ///         sets the mock clock to `now`, presents the (mutated) token in an Initial header with
+    ///         destination CID `dcid` from `from_addr:from_port` to `IncomingToken::from_header`
+    ///         -> [1]  InvalidRetryTokenError
+    ///          | [0, validated, retry_src_cid length or -1, bytes..., orig_dst_cid length, bytes...]
+    ///       mutation: 0 none | 1 flip bit `arg` | 2 truncate to `arg` bytes | 3 append 1 + arg%3
+    ///       bytes of value arg | 4 sealed part of token_no + nonce part of token `arg` |
+    ///       5 `arg` bytes of garbage
+    pub(super) fn token_decision(ops: &Ops) -> Outs {
+        let clock = Arc::new(AtomicU64::new(0));
+        let mut cfg = ServerConfig::new(Arc::new(NoCrypto), Arc::new(key(0)));
+        cfg.time_source(Arc::new(MockTime(clock.clone())));
+        let mut tokens: Vec<Vec<u8>> = Vec::new();
+        let mut outs = Vec::new();
+        for (i, op) in ops.iter().enumerate() {
+            let o = match op[0] {
+                0 if i == 0 => {
+                    cfg.retry_token_lifetime(Duration::from_micros(op[1] as u64));
+                    let mut v = ValidationTokenConfig::default();
+                    v.lifetime(Duration::from_micros(op[2] as u64));
+                    v.log(Arc::new(BloomTokenLog::new(1 << 20, 7)));
+                    cfg.validation_token_config(v);
+                    vec![0]
+                }
+                1 => {
+                    let issued = UNIX_EPOCH + Duration::from_micros(op[5] as u64);
+                    let n = op[8] as usize;
+                    let payload = if op[1] == 0 {
+                        TokenPayload::Retry {
+                            address: SocketAddr::new(ip(op[3]), op[4] as u16),
+                            orig_dst_cid: cid(&op[9..9 + n]),
+                            issued,
+                        }
+                    } else {
+                        TokenPayload::Validation { ip: ip(op[3]), issued }
+                    };
+                    let nonce = ((op[6] as u128) << 64) | (op[7] as u128);
+                    let t = Token::verif_with_nonce(payload, nonce).encode(&key(op[2]));
+                    let l = t.len();
+                    tokens.push(t);
+                    vec![0, l as i128]
+                }
+                2 => {
+                    let base = tokens.get(op[1] as usize).cloned().unwrap_or_default();
+                    let arg = op[3];
+                    let bytes: Vec<u8> = match op[2] {
+                        1 => {
+                            let mut b = base;
+                            let k = arg as usize;
+                            b[k / 8] ^= 1 << (k % 8);
+                            b
+                        }
+                        2 => base[..(arg as usize).min(base.len())].to_vec(),
+                        3 => {
+                            let mut b = base;
+                            b.extend(std::iter::repeat(arg as u8).take(1 + (arg % 3) as usize));
+                            b
+                        }
+                        4 => {
+                            let other = tokens.get(arg as usize).cloned().unwrap_or_default();
+                            let mut b = base[..base.len() - 16].to_vec();
+                            b.extend_from_slice(&other[other.len() - 16..]);
+                            b
+                        }
+                        5 => (0..arg).map(|j| (j * 37 + arg) as u8).collect(),
+                        _ => base,
+                    };
+                    clock.store(op[6] as u64, Ordering::SeqCst);
+                    let n = op[7] as usize;
+                    let header = InitialHeader {
+                        dst_cid: cid(&op[8..8 + n]),
+                        src_cid: ConnectionId::new(&[7, 7, 7, 7]),
+                        token: Bytes::from(bytes),
+                        number: PacketNumber::U8(0),
+                        version: 1,
+                    };
+                    let remote = SocketAddr::new(ip(op[4]), op[5] as u16);
+                    match IncomingToken::from_header(&header, &cfg, remote) {
+                        Err(_) => vec![1],
+                        Ok(t) => {
+                            let mut o = vec![0, t.validated as i128];
+                            match &t.retry_src_cid {
+                                None => o.push(-1),
+                                Some(c) => out_cid(&mut o, c),
+                            }
+                            out_cid(&mut o, &t.orig_dst_cid);
+                            o
+                        }
+                    }
+                }
+                _ => vec![-1],
+            };
+            outs.push(o);
+        }
+        outs
+    }
+}
+
 /// Interpret `ops` for component `comp`; `None` if `comp` is not served by this module.
-pub(crate) fn run(_comp: &str, _ops: &Ops) -> Option<Outs> {
-    None
+pub(crate) fn run(comp: &str, ops: &Ops) -> Option<Outs> {
+    match comp {
+        #[cfg(all(feature = "ring", feature = "bloom"))]
+        "token_decision" => Some(imp::token_decision(ops)),
+        _ => None,
+    }
 }
